@@ -489,6 +489,9 @@ def tasks():
     # hints message, whatever its content, into automat.NoTransition out of received_dilation_message
     from .common import shared_tasks
     out += shared_tasks("c20", "c11", ("Manager.rx_HINTS", "Manager.use_hints"))
+    # encode side, transit flavour: the hints this side publishes (contracts and lemma live in props/c07.py)
+    # (lemma:published_direct_hint_parses_back is proved in C07's run only: see ASSUMPTIONS)
+    out += shared_tasks("c20", "c07", ("Common._build_listener", "Common._get_direct_hints", "Common.get_connection_hints"))
     return out
 
 
@@ -518,8 +521,12 @@ ASSUMPTIONS = ["JSON floats are reals; a priority 1 and a priority 1.0 are disti
                "returned None (a relay-v1 hint whose sub-hint is tor-tcp-v1 on a client without Tor, or an address Tor refuses): "
                "AttributeError inside the reactor (replay/native/c20_connect_scheduled_without_endpoint.py); the obligations "
                "one-attempt-scheduled-iff-there-is-an-endpoint / no-connect-scheduled-without-an-endpoint guard the repair",
-               "not under contract: Common.get_connection_hints / _get_direct_hints (inlineCallbacks + listener set-up: this side's own "
-               "addresses), Connector._publish_hints / Manager.send_hints (encode side of the dilation hints: encode_hint is "
+               "Common.get_connection_hints / _get_direct_hints / _build_listener are under contract in props/c07.py (shared tasks): every "
+               "direct dict published is wellformed_tcp and hint_matches its hint object, and lemma:published_direct_hint_parses_back "
+               "(a C07 task: shared into this module's run it crashed the checker inside valid_any_hint - not investigated for lack of "
+               "time - so it is discharged under C07 only) gives parse_hint(dict) == hint object from exactly these two facts; the relay dicts of get_connection_hints "
+               "(relay_dict_of: sub-hints reproduced unchanged) are NOT registered - the quantified clause and its loop invariant stayed "
+               "undecided within the budget.  Not under contract: Connector._publish_hints / Manager.send_hints (encode side of the dilation hints: encode_hint is "
                "covered by the two round-trip lemmas, the list comprehension around it is not); the relay round trip is proved for "
                "the one-sub-hint relay hints this side builds, not for arbitrary RelayV1Hint values (encode_hint writes every "
                "sub-hint as direct-tcp-v1)"]
